@@ -34,6 +34,8 @@ SendCast ==
   /\ nq[Ev.s] + 1 = Ev.q
   /\ Send(Ev.s, "cast", Ev.dir, Ev.x)
   /\ (Ev.d = 1) = (rq'[I].st = "sent")
+\* a message of a type that cannot be serialized is refused by a remote reference, and nothing changes
+Wrong == IsA("obs.wrong") /\ Adv /\ Ev.d = 0 /\ UNCHANGED vars
 CallBegin ==
   /\ IsA("obs.call_begin") /\ Adv
   /\ nq[Ev.s] + 1 = Ev.q
@@ -137,7 +139,7 @@ SilentExit == ~Strict /\ Live /\ Stay /\ KeepReq /\ \E x \in stopreq : pr[x].st 
 
 TNext == \/ (Reset /\ stopreq' = {})
          \/ StopReq \/ SilentExit
-         \/ ((SendCast \/ CallBegin \/ Ret \/ Recv \/ ReplyObs \/ Life \/ PFwd \/ PResolve \/ SFwd \/ SReply \/ SCtl
+         \/ ((SendCast \/ Wrong \/ CallBegin \/ Ret \/ Recv \/ ReplyObs \/ Life \/ PFwd \/ PResolve \/ SFwd \/ SReply \/ SCtl
               \/ SkipInternal \/ SilentInternal \/ Unseen \/ End) /\ KeepReq)
 
 TInit == Init /\ l = 1 /\ stopreq = {} /\ TLCSet(42, 1)
